@@ -80,3 +80,16 @@ Definition respond_w (negttl : N -> N -> N) (buf : bytes) (tcp : bool) (id : N) 
     | Some w' => match finish w' with Ok r => Some r | _ => None end
     end
   end.
+
+(* a response that does not come from query answering (REFUSED, NOTIMP, SERVFAIL for a zone that is not
+   loaded): the prepared writer with the RCODE the server model decided *)
+Definition respond_plain (buf : bytes) (tcp : bool) (id : N) (rd : bool) (qname : zname) (qtype qclass : N)
+    (edns : option N) (limit : nat) (rcode : N) : option (nat * bytes) :=
+  match prepare_w buf tcp id rd qname qtype qclass edns limit with
+  | None => None
+  | Some w =>
+    match set_rcode rcode w with
+    | Ok w' => match finish w' with Ok r => Some r | _ => None end
+    | _ => None
+    end
+  end.
